@@ -11,9 +11,14 @@ package proxy
 // Two explorations, both on the instrumented code under the controlled scheduler:
 //   seq/*   every sequential history up to a depth over {login(i), login-denied-by-LoginEvent(i),
 //           disconnect(open session k)} for 4 identities colliding by UUID and/or case-insensitive
-//           name, in 3 configurations (run with one scheduler thread so a self-deadlock is a finding).
+//           name, in 4 configurations (run with one scheduler thread so a self-deadlock is a finding);
+//           a second family (seqx, one op shorter) over the ways a login FAILS or a session ends other
+//           than by the client leaving: write error after registration, client gone during the
+//           LoginEvent, pre-1.20.2 client, LoginAcknowledged followed by the no-server disconnect
+//           (teardown through the configuration / initial-connect handlers) - see c11Apply.
 //   conc/*  2-3 threads of such operations, every interleaving within a preemption bound, with the
-//           invariants evaluated at EVERY scheduling point at which the registry lock is free.
+//           invariants evaluated at EVERY scheduling point at which the registry lock is free; incl.
+//           a connection that another goroutine closes while its own login is still completing.
 
 import (
 	"errors"
